@@ -139,6 +139,10 @@ class C19(Check):
         self.uobj = {'AA': u.AA, 'nm': u.nm, 'um': u.um, 'm': u.m}
         for f in (A.airtovac, A.vactoair, IO.sdssflux2ab, S2.filter_thru):
             self.reach.add(f)
+        self.brd.per_case = 4
+        self.brd.attach(self.rec, A, 'airtovac', every=3, own=True)          # buffer-reuse differential (vlib/brd.py)
+        self.brd.attach(self.rec, A, 'vactoair', every=3, own=True)
+        self.brd.attach(self.rec, IO, 'sdssflux2ab', every=5, own=True)
         self.rec.wrap(A, 'airtovac')
         self.rec.wrap(A, 'vactoair')
         self.rec.wrap(IO, 'sdssflux2ab')
